@@ -208,6 +208,31 @@ def install(seed, max_steps=3000000, max_virtual=3000.0):
     IT.next = next_
     IT.__next__ = next_
 
+    # the pool's own stop event and the drain step of the forced shutdown get names / records (C05: Shutdown model)
+    WP = mpire.pool.WorkerPool
+    orig_pool_init = WP.__dict__['__init__']
+
+    def pool_init(self, *a, **k):
+        orig_pool_init(self, *a, **k)
+        try:
+            evs = [(n, v) for n, v in vars(self).items() if isinstance(v, sim.Event)]
+            named = [v for n, v in evs if 'stop' in n]
+            for v in (named or ([evs[0][1]] if len(evs) == 1 else [])):
+                v.role = 'hstop'
+        except Exception:  # noqa
+            pass
+
+    _saved.append((WP, '__init__', orig_pool_init))
+    WP.__init__ = pool_init
+    orig_drain = WC.__dict__.get('drain_results_queue_terminate_worker')
+    if orig_drain is not None:
+        def drain_tw(self, *a, **k):
+            sim.S.rec('drain')
+            return orig_drain(self, *a, **k)
+
+        _saved.append((WC, 'drain_results_queue_terminate_worker', orig_drain))
+        WC.drain_results_queue_terminate_worker = drain_tw
+
     # record every attempt to set the outcome of an apply job (who, which job, what, whether it was the first)
     AR = mpire.async_result.AsyncResult
     orig_set = AR.__dict__['_set']
